@@ -34,6 +34,7 @@ func init() {
 func runC07(c *Ctx) {
 	c07Errors(c, "C07.errors", c07Funcs)
 	c07NoDrop(c)
+	lineVerbatim(c, "C07.line-verbatim", "dnsdata", "parse")
 	c07Tail(c)
 	c07Rmw(c, "C07.rmw")
 	c.locksetRows("C07.accum-lock", func(r lockRow) bool { return r.Pkg == "dnsdata" && r.Type == "Accum" })
@@ -872,6 +873,7 @@ func c07Buckets(c *Ctx) {
 		return ia.Index
 	}
 	loops := naturalLoops(fn)
+	validated := map[*ssa.Phi]bool{}
 	for _, ci := range callInstrs(fn) {
 		f := calleeOf(ci.Common())
 		if f == nil || f.Pkg() == nil || f.Pkg().Path() != "bytes" || f.Name() != "Equal" {
@@ -945,10 +947,64 @@ func c07Buckets(c *Ctx) {
 			}
 			if inc && exits {
 				found = true
+				validated[phi] = true
 			}
 		}
 	}
 	c.Check(rule, fnName(fn)+"|cut-only-between-different-keys", found, fn.Pos(), "a run of equal keys split over two SST files makes one file's value list shadow the other's at ingestion")
+	// every boundary that ends up in a bucket is a validated cut: the scan variable of the loop above, the start (0),
+	// the end of the values, or a merge of those. A boundary computed any other way (seed c07r4h: the arithmetic
+	// midpoint of the last two buckets) was never compared with its neighbour.
+	var allowed func(v ssa.Value, seen map[ssa.Value]bool) bool
+	allowed = func(v ssa.Value, seen map[ssa.Value]bool) bool {
+		v = unwrap(v)
+		if seen[v] {
+			return true
+		}
+		seen[v] = true
+		if k, ok := constInt(v); ok && k == 0 {
+			return true
+		}
+		if ln := isBuiltinCall(v, "len"); ln != nil {
+			return true
+		}
+		if phi, ok := v.(*ssa.Phi); ok {
+			if validated[phi] {
+				return true
+			}
+			for _, e := range phi.Edges {
+				if !allowed(e, seen) {
+					return false
+				}
+			}
+			return true
+		}
+		return false
+	}
+	nb, badB := 0, []string{}
+	for _, b := range fn.Blocks {
+		for _, in := range b.Instrs {
+			st, ok := in.(*ssa.Store)
+			if !ok {
+				continue
+			}
+			fa, ok := st.Addr.(*ssa.FieldAddr)
+			if !ok {
+				continue
+			}
+			fname := fieldName(fa.X.Type(), fa.Field)
+			if fname != "startOffset" && fname != "endOffset" {
+				continue
+			}
+			nb++
+			if !allowed(st.Val, map[ssa.Value]bool{}) {
+				badB = append(badB, fname+" at "+c.relPos(st.Pos()))
+			}
+		}
+	}
+	if found {
+		c.Check(rule, fnName(fn)+"|every-boundary-is-a-validated-cut", len(badB) == 0 && nb >= 2, fn.Pos(), fmt.Sprintf("%d boundary stores; not derived from the key-comparing scan, 0 or the end of the values: %v", nb, badB))
+	}
 }
 
 // ---------------------------------------------------------------------------
